@@ -71,6 +71,7 @@ struct Case {
     ret: String,         // list | tuple | ndarray
     probe_empty: bool,   // also call sol(np.array([])) (k = 0)
     doc: bool,           // every option form used is documented by the binding (false: Level-B expectation only, drift)
+    census: bool,        // also count, per event function, the crossings in each direction (all events non-terminal): scenario adequacy
 }
 
 // ------------------------------------------------------------------------------------------------ problems
@@ -229,7 +230,26 @@ fn run_case(c: &Case) -> serde_json::Value {
             rec["sol"] = probes.into();
         }
     }
+    rec["census"] = if c.census { census(c) } else { serde_json::json!([]) };
     rec
+}
+
+/// Scenario adequacy of the event-list cases, measured on the Rust API: the same problem with every event non-terminal and
+/// direction +1 (resp. -1) for all of them; per event function <<number of rising crossings, number of falling crossings>>.
+/// (-1 = that run failed.)  Trace_Py demands >= 1 of each, so that a wrong direction / terminal flag changes the outcome.
+fn census(c: &Case) -> serde_json::Value {
+    let mut counts: Vec<[i64; 2]> = vec![[-1, -1]; c.events.len()];
+    for (slot, dir) in [(0usize, 1i32), (1usize, -1i32)] {
+        let mut c2 = c.clone();
+        for e in c2.events.iter_mut() { e.rterm = false; e.rdir = dir; }
+        let prob = Prob::new(&c2);
+        let opts = Options::builder().method(method_of(&c.rmethod)).rtol(tol_of(&c.rtol, 1e-3)).atol(tol_of(&c.atol, 1e-6)).build();
+        let y0 = untoks(&c.y0);
+        if let Ok(Ok(sol)) = catch(|| solve_ivp(&NoJac(&prob), untok(&c.t0), untok(&c.tf), &y0, opts)) {
+            for (i, te) in sol.t_events.iter().enumerate() { if i < counts.len() { counts[i][slot] = te.len() as i64; } }
+        }
+    }
+    serde_json::json!(counts.iter().map(|p| vec![p[0], p[1]]).collect::<Vec<_>>())
 }
 
 // ------------------------------------------------------------------------------------------------ case table
@@ -250,10 +270,13 @@ struct Scen {
     #[serde(default)] ngroups: i64,
     #[serde(default)] doc: bool,
     #[serde(default)] njev: String,
+    #[serde(default)] evs: Vec<ScenEv>,     // kind "evlist": per event function the attribute forms and the parse result the specification expects
 }
+#[derive(Deserialize, Clone, Debug, Default)]
+struct ScenEv { terminal: String, direction: String, rterm: i64, rdir: i64, doc: bool }
 
 struct Tables { methods: Vec<Scen>, tols: Vec<Scen>, steps: Vec<Scen>, evattrs: Vec<Scen>, jacs: Vec<Scen>,
-                shapes: Vec<Scen>, patterns: Vec<Scen>, evundoc: Vec<Scen>, spforms: Vec<Scen> }
+                shapes: Vec<Scen>, patterns: Vec<Scen>, evundoc: Vec<Scen>, spforms: Vec<Scen>, evlists: Vec<Scen> }
 
 fn d(x: f64) -> String { tok(x) }
 
@@ -612,16 +635,55 @@ fn gen_cases(tb: &Tables, seed: u64, tier: &str) -> Vec<Case> {
             }
         }
     }
+    // 7. event LISTS (PyLayer machine evlist): two and three event functions, each with its own terminal / direction attributes
+    //    or without them, in every order; the Rust reference is configured per event from the parse result the specification
+    //    expects.  Problem: the oscillator y = (cos 1.5 t, -sin 1.5 t) over 2.15 periods; the event functions are component
+    //    thresholds, each crossed several times in BOTH directions at interleaved times (see EVLIST_FUNS), so that a wrong
+    //    direction filter drops / adds occurrences and a wrong terminal flag moves the end of the run.  The assignment of the
+    //    threshold functions to the list positions rotates, methods and list / tuple delivery rotate.
+    //    quick: every pair (400) + a seed-selected 1/4 of the triples; thorough: all 8 400 lists.
+    {
+        // (util::Rng streams of neighbouring seeds are shifted copies of each other: spread the seed first)
+        let mut rng7 = Rng::new((seed ^ 0xE71157).wrapping_mul(0xD134_2543_DE82_EF95).rotate_left(29));
+        for (k, s) in tb.evlists.iter().enumerate() {
+            let nev = s.evs.len();
+            if nev < 2 { continue; }
+            if !thorough && nev > 2 && !rng7.chance(0.25) { continue; }
+            let mut c = base_case("sho", 2);
+            c.tf = d(9.0);
+            set_method(&mut c, canonical(tb, CANON[k % 6]));
+            let rot = (k / 6) % EVLIST_FUNS.len();
+            c.events = s.evs.iter().enumerate().map(|(i, a)| {
+                let (idx, cc) = EVLIST_FUNS[(i + rot) % EVLIST_FUNS.len()];
+                Ev { kind: "comp".into(), idx, c: d(cc), terminal: a.terminal.clone(), direction: a.direction.clone(),
+                     rterm: a.rterm != 0, rdir: a.rdir as i32 }
+            }).collect();
+            c.events_form = (if (k / 18) % 2 == 0 { "list" } else { "tuple" }).into();
+            c.doc = s.doc && s.evs.iter().all(|e| e.doc);
+            c.census = true;
+            c.class = format!("ev-list{}", nev);
+            out.push(c);
+        }
+    }
     for (i, c) in out.iter_mut().enumerate() { c.id = format!("k{:05}", i + 1); }
     out
 }
+
+/// Event functions of the event-list cases on "sho" (y0 = cos 1.5 t, y1 = -sin 1.5 t, t in [0, 9]): (component, threshold).
+///   y0 - 0.5   : falling at t = 0.698, 4.887; rising at 3.491, 7.679
+///   y1 + 0.25  : falling at t = 0.168, 4.357, 8.546; rising at 1.926, 6.115
+///   y0 + 0.75  : falling at t = 1.613, 5.802; rising at 2.576, 6.765
+/// (none vanishes at t0; Trace_Py re-checks "at least one crossing in each direction" on the measured census of every case)
+const EVLIST_FUNS: [(usize, f64); 3] = [(0, 0.5), (1, -0.25), (0, -0.75)];
 
 fn load_tables(path: &str) -> Tables {
     let txt = std::fs::read_to_string(path).expect("scenario file");
     let all: Vec<Scen> = serde_json::from_str(&txt).expect("scenario json");
     let pick = |k: &str| all.iter().filter(|s| s.kind == k).cloned().collect::<Vec<_>>();
     let mut tb = Tables { methods: pick("method"), tols: pick("tol"), steps: pick("step"), evattrs: pick("evattr"), jacs: pick("jac"),
-             shapes: pick("shape"), patterns: pick("pattern"), evundoc: vec![], spforms: pick("spform") };
+             shapes: pick("shape"), patterns: pick("pattern"), evundoc: vec![], spforms: pick("spform"),
+             evlists: pick("evlist") };
+    tb.evlists.sort_by_key(|s| (s.evs.len(), s.evs.iter().map(|e| (e.terminal.clone(), e.direction.clone())).collect::<Vec<_>>()));
     tb.spforms.sort_by_key(|s| s.form.clone());
     tb.evundoc = tb.evattrs.iter().filter(|s| !s.doc).cloned().collect();
     tb.evattrs.retain(|s| s.doc);
